@@ -51,7 +51,7 @@ def install():
 
 def cases(tier, seed):
     out = [{"kind": "table", "ff": ff} for ff in common.FFS]
-    nuser = 12 if tier == "quick" else 150
+    nuser = 12 if tier == "quick" else 600
     out += [{"kind": "usertable", "seed": seed * 9001 + i, "base": ["AMBER", "PARSE", "CHARMM", "TYL06"][i % 4]}
             for i in range(nuser)]
 
@@ -73,16 +73,16 @@ def cases(tier, seed):
             o.append("--ffout=" + rng.choice(common.FFS))
         return o
 
-    nrun = 180 if tier == "quick" else 6000
+    nrun = 180 if tier == "quick" else 30000
     for spec in workload.standard_cases(tier, seed, nrun, nrun, opts_fn=opts, frag_share=0.25,
-                                        p={"variant_prob": 0.3, "na_prob": 0.2, "waters": [0, 0, 2, 4]}):
+                                        p={"icode_prob": 0.2, "variant_prob": 0.3, "na_prob": 0.2, "waters": [0, 0, 2, 4]}):
         spec["kind"] = "run"
         out.append(spec)
-    for rep in range(1 if tier == "quick" else 12):
+    for rep in range(1 if tier == "quick" else 40):
         for spec in workload.lattice_cases(seed * 31 + rep, opts_fn=opts):
             spec["kind"] = "run"
             out.append(spec)
-    nu = 16 if tier == "quick" else 300
+    nu = 16 if tier == "quick" else 1500
     for i in range(nu):
         out.append({"kind": "userrun", "w": "synth", "seed": seed * 7333 + i, "ff": "USER",
                     "base": ["AMBER", "PARSE", "CHARMM", "TYL06"][i % 4], "ffseed": seed * 17 + i,
